@@ -70,3 +70,9 @@ claim("C13",
  "Bounded model checking of the real coordinator/worker code at quiescence: every started job has reported, catch-up-done holds exactly when nothing is queued, in flight or failed (including right after resume), every height is sampled or recorded failed, statistics agree with the ghost record of sampled heights, worker counts respect limit / 2x limit, and the back-off attempt count increases by one with a delay that saturates at the last interval for every attempt count 0..8 and every instant.",
  "symbolic execution of go/ssa with schedules as decisions + SMT; unbounded liveness replaced by bounded quiescence statements",
  "DESIGN.md 6/C13")
+
+claim("C03",
+ "Bounded model checking of the real light-availability code (SharesAvailable, selectRandomSamples, the persisted SamplingResult) by symbolic execution: sample coordinates are ARBITRARY symbolic values in range (the random source is a nondeterministic stub), and for two consecutive checks of one block - the second on a fresh instance over the same datastore cell (restart) - with every getter outcome (no result, any subset of positions served, with or without error, cancellation) and failing persistence, the check succeeds only when min(amount, square area) distinct in-square coordinates were each handed back by the getter, the sample set keeps its size and membership, a retry requests exactly the pending coordinates, and no failed/partial/cancelled attempt moves a coordinate to 'sampled'.",
+ "symbolic execution of go/ssa + SMT over symbolic coordinates; getter outcomes and persistence faults as explored decisions",
+ "DESIGN.md 6/C03",
+ "Quick: 2x2 square, amount 2 or 5; thorough: also 4x4 and amounts 1,3. Not covered: uniformity/unpredictability of crypto/rand (probabilistic), concurrent calls for one height (sessions), loss of buffered autobatch writes on crash.")
